@@ -61,6 +61,8 @@ LOCI = {
     "contained+similar": [("T1", "G1", "+", [(100, 200), (300, 400), (500, 600)]),
                           ("T5", "G1", "+", [(320, 380), (500, 600)]),
                           ("T6", "G1", "+", [(100, 200), (303, 400), (500, 600)])],
+    "shared_chain": [("T1", "G1", "+", [(100, 200), (300, 400), (500, 600)]),
+                     ("T8", "G2", "-", [(150, 200), (300, 400), (500, 650)])],
     "antisense": [("T1", "G1", "+", [(100, 200), (300, 400), (500, 600)]),
                   ("T4", "G2", "-", [(370, 460), (700, 800)]),
                   ("T7", "G2", "-", [(100, 200), (700, 800)])],
@@ -163,10 +165,11 @@ def h_recount(locus, delta, k, grouped, anchored=False):
                 g.check(NOT(AND(inc == 1, exc == 1)), "no feature is both included and excluded by one read", detail=det)
                 if kind == "exon":
                     must = AND(NOT(any_match), inner[0] <= f[0], f[1] <= inner[1]) if k > 1 else False
-                    may = AND(span[0] <= f[1], f[0] <= span[1])
+                    # "an exon lying between the read's first and last exon"
+                    may = OR(AND(blocks[0][1] < f[0], f[1] < blocks[-1][0]), any_match)   # non-closest candidates are marked absent
                 else:
                     must = AND(NOT(any_match), span[0] <= f[0], f[1] <= span[1])
-                    may = AND(span[0] <= f[1], f[0] <= span[1])
+                    may = OR(AND(span[0] <= f[1], f[0] <= span[1]), any_match)
                 g.check(IMPLIES(must, exc == 1), "exclude when the read spans the feature without containing it", detail=det)
                 g.check(IMPLIES(exc == 1, may), "exclude only for features covered by the read", detail=det)
                 if grouped:
@@ -203,4 +206,8 @@ def instances(tier, seed):
                                         h_recount(locus, delta, k, gr), F,
                                         "locus %s, read with %d exons of free coordinates, delta=%d" % (locus, k, delta),
                                         weight=30 ** k, budget_s=2400))
+    from props import c09
+    for n in ((2,) if q else (2, 3)):
+        out.append(Instance("two_reads_grouped[%d]" % n, c09.h_profile_groups(n), ["src.long_read_counter:ProfileFeatureCounter.add_read_info_from_profile"],
+                            "2 reads x 2 features x %d groups: every read is counted under its own group only" % n, weight=20))
     return out
